@@ -10,6 +10,11 @@ namespace Dirk
 /-- NewStore sets SyncWrites to the literal `true` -/
 theorem facts_sync_writes : Gen.storeSyncWrites = some "true" := by decide
 
+/-- NewStore sets only reviewed badger options: in particular nothing that switches off the directory lock
+    (`BypassLockGuard`), makes the store read-only or in-memory, or changes how many versions are kept -/
+theorem facts_store_options :
+    Gen.storeOptionsSet.all (fun o => ["Logger", "SyncWrites", "TableLoadingMode", "ValueLogLoadingMode"].contains o) = true := by decide
+
 /-- the record-key action bytes are the ones the model uses (attestation 0x02, proposal 0x03) -/
 theorem facts_action_bytes :
     Gen.actionBytes = ["actionSignBeaconAttestation=[]byte{0x02}", "actionSignBeaconProposal=[]byte{0x03}"] ∧
